@@ -45,6 +45,8 @@ FIXES = [
   "(also C11) publishers 'a' and 'a/b' (handles may contain '/') have nested base URIs: 'a' could publish at URIs of 'a/b'; the RRDP snapshot then listed the same URI twice, clients could not apply the deltas and the rsync files overwrote each other"),
  ("let the trust anchor signer refuse a request it has already processed", "C15", "request_answered_twice",
   "the TA signer processed a validly signed request again when it was delivered a second time (same nonce) or replayed from an earlier round: child certificates issued twice, manifest and CRL moved on, a second exchange stored - while the proxy accepts one response per request"),
+ ("revoke a child's key also when the child knows the resource class under another name", "C03", "revocation_without_effect",
+  "process_child_revoke_key looked up the class under the child's name for it before translating it through the child's resource class name mapping; for a child with a mapped class name the revocation request (key roll finished) was answered positively but the certificate of the retired key stayed issued and published"),
 ]
 
 log = subprocess.run(["git", "-C", "/repo", "log", "--format=%h %s", "--grep=^fix:"],
